@@ -562,6 +562,14 @@ static void check_scratch(Run &r, int t, int i, const HashCall &c, const struct 
                 vfmt("%s(%s) got past validation (%s) but data->%s is not all zero afterwards (first non-zero byte at +%zu)",
                      c.kind.c_str(), c.setting.null ? "NULL" : c.setting.b.c_str(), c.failed ? "failed" : "succeeded", where, off));
     }
+  } else if (!c.aliased && c.failed && (c.phrase.null || c.setting.null || c.phrase.b.size() >= CRYPT_MAX_PASSPHRASE_SIZE || !setting_chars_ok(c.setting.b))) {
+    // NULL argument, over-long phrase, forbidden byte: refused by argument validation whatever the tree's methods are -
+    // "and are otherwise untouched".  (Held-out seeded change C09-r9 wipes the areas here, which destroys a key that
+    // setkey_r put into the same object.)
+    stat("probe_scratch_must_be_untouched");
+    if (!scratch_same(cd, pre))
+      violation(nullptr, "scratch-written-by-refused-call", t, i,
+                vfmt("%s refused the request during argument validation, but internal/reserved/initialized are not what they were before the call%s", c.kind.c_str(), z ? " (they were wiped)" : ""));
   } else {
     stat("probe_scratch_zero_or_untouched");
     if (!z && !scratch_same(cd, pre))
@@ -1485,6 +1493,12 @@ static void exec_op(Run &r, int t, int i, const J &op) {
   else if (k == "slot_set") exec_slot_set(r, t, i, op);
   else if (k == "free_results") exec_free_results(r, t, i, op);
   else if (k == "scribble") exec_scribble(r, t, i, op);
+  else if (k == "encrypt_many") {   // n chained blocks under the key last set: every one goes through the same checks as a single encrypt
+    J e = J::obj(); e["k"] = op.i("r") ? "encrypt_r" : "encrypt"; if (op.has("obj")) e["obj"] = op.at("obj"); e["blk"] = op.at("blk");
+    long n = (long)op.i("n");
+    for (long b = 0; b < n && !run_violated(); b++) { e["flag"] = (long long)(b % 7 == 3); if (b == 1) e["chain"] = 1; exec_des(r, t, i, e); }
+    stat("probe_des_bulk_histories");
+  }
   else if (k == "prim") exec_prim(r, t, i, op);
   else crash_exit("machinery", ("unknown op kind " + k).c_str());
   g_call_on_new_thread = false;
